@@ -13,6 +13,7 @@ CONSTANTS
   SessIds = {1, 2, 3, 4, 5, 6, 7, 8, 9, 10, 11, 12, 13, 14, 15, 16}
   Ctxs = {1, 2, 3, 4}
   Deferred = FALSE
+  InitFH <- NoFH
   MaxOther = 0
   MaxSeq = 0
   MaxClock = 0
